@@ -195,6 +195,7 @@ def run_shard(sh):
   T.consttbl_stream(sh, "ys", 4 if sh.tier == "quick" else 40, mech)
   T.ifcportlist_stream(sh, "ys", 3 if sh.tier == "quick" else 30, mech)
   T.childportlist_stream(sh, "ys", 3 if sh.tier == "quick" else 30, mech)
+  T.structtmp_stream(sh, "ys", 2 if sh.tier == "quick" else 20, mech)
   T.conststructconn_stream(sh, "ys", 3 if sh.tier == "quick" else 30, mech)
   T.liststruct_stream(sh, "ys", 3 if sh.tier == "quick" else 30, mech)
   T.constuse_stream(sh, "ys", 4 if sh.tier == "quick" else 40, mech)
